@@ -153,6 +153,20 @@ pub fn new_iset(probe: &ProbeLog) -> InstructionSet {
         "VERIF.NOOP*WITH*A*NAME*LONGER*THAN*ANY*BUILTIN*INSTRUCTION".to_string(),
         Instruction::new(|_st: &mut PushState, _c: &InstructionCache| {}),
     );
+    // ... and one whose name is not ASCII (byte length and character count differ)
+    iset.add(
+        "VERIF.NÖÖP*MIT*UMLÄUTEN*ÜBER*DREIUNDZWANZIG*BYTES".to_string(),
+        Instruction::new(|_st: &mut PushState, _c: &InstructionCache| {}),
+    );
+    // ... one that is the longest name in bytes but not in characters, and one with lower-case letters
+    iset.add(
+        "VERIF.ÄÖÜ*ÄÖÜ*ÄÖÜ*ÄÖÜ*ÄÖÜ*ÄÖÜ*ÄÖÜ*ÄÖÜ*ÄÖÜ*ÄÖÜ*ÄÖÜ*ÄÖÜ*NOOP".to_string(),
+        Instruction::new(|_st: &mut PushState, _c: &InstructionCache| {}),
+    );
+    iset.add(
+        "VERIF.MyInstruction".to_string(),
+        Instruction::new(|_st: &mut PushState, _c: &InstructionCache| {}),
+    );
     let p2 = probe.clone();
     iset.add(
         "VERIF.SLEEP".to_string(),
